@@ -22,7 +22,7 @@ Proof.
   intros h d col row text clear align Hf Sh Hr Hc Ha Hal. apply fitsb_fits in Hf.
   pose proof (write_refines h d col row text clear align Hf Sh Hr Hc Ha Hal) as H.
   destruct H as (h' & E & _ & S). cbv zeta in S. destruct S as (S & _).
-  exists h', (write_aligned d (d_cols d) col row text clear align). cbn [hstep dstep]. rewrite Hal.
+  exists h', (write_aligned d (d_cols d) col row text clear align). cbn [hstep dstep]. rewrite Hal, (utf8_ascii _ Ha).
   split; [exact E|]. split; [reflexivity|exact S].
 Qed.
 
@@ -36,7 +36,7 @@ Proof.
   pose proof Hf as (Hc & _). fold (d_cols d) in Hc.
   pose proof (write_refines h d 0 row text clear align Hf Sh Hr ltac:(lia) Ha Hal) as H.
   destruct H as (h' & E & _ & S). cbv zeta in S. destruct S as (S & _).
-  exists h', (write_aligned d (d_cols d) 0 row text clear align). cbn [hstep dstep]. rewrite Hal.
+  exists h', (write_aligned d (d_cols d) 0 row text clear align). cbn [hstep dstep]. rewrite Hal, (utf8_ascii _ Ha).
   split; [rewrite hline_hwrite; exact E|]. split; [reflexivity|exact S].
 Qed.
 
@@ -50,7 +50,8 @@ Proof.
   pose proof (message_refines h d top bottom ta ba clear Hf Sh (opt_asciib_ascii _ Ht) (opt_asciib_ascii _ Hb)
                 Hta Hba Hrows) as H.
   destruct H as (h' & E & _ & S). cbv zeta in S. destruct S as (S & _).
-  exists h', (dmessage d top bottom ta ba clear). cbn [hstep dstep]. rewrite Hta, Hba. cbn [andb].
+  exists h', (dmessage d top bottom ta ba clear). cbn [hstep dstep].
+  rewrite Hta, Hba, (opt_utf8_ascii _ (opt_asciib_ascii _ Ht)), (opt_utf8_ascii _ (opt_asciib_ascii _ Hb)). cbn [andb].
   split; [exact E|]. split; [reflexivity|exact S].
 Qed.
 
@@ -76,7 +77,7 @@ Proof.
   intros h d row value maxv width style label Hf Sh Hr Hs Hl Hm Hw Hfd. apply fitsb_fits in Hf.
   pose proof (progress_refines h d row value maxv width style label Hf Sh Hr Hs Hl Hm Hw Hfd) as H.
   destruct H as (h' & E & _ & S). cbv zeta in S. destruct S as (S & _).
-  exists h', (progress d (d_cols d) row value maxv width style label). cbn [hstep dstep]. rewrite Hs.
+  exists h', (progress d (d_cols d) row value maxv width style label). cbn [hstep dstep]. rewrite Hs, (utf8_ascii _ Hl).
   split; [exact E|]. split; [reflexivity|exact S].
 Qed.
 
@@ -251,6 +252,9 @@ Proof.
   - intros r c. unfold dcell. rewrite G, R. reflexivity.
 Qed.
 
+Lemma is_none_map {A B} (f : A -> B) o : is_none (option_map f o) = is_none o.
+Proof. destruct o; reflexivity. Qed.
+
 Lemma dev_in_row : forall d op d',
   fitsb (d_g d) = true -> geo_guard (d_g d) op = true -> dstep d op = Some d' ->
   d_g d' = d_g d /\
@@ -265,21 +269,22 @@ Proof.
   - (* write *)
     apply andb_true_iff in Hg as [Hg Hal]. apply andb_true_iff in Hg as [Hrow Hcol].
     apply row_in_spec in Hrow. apply col_in_spec in Hcol. rewrite Hal in Hs. injection Hs as <-.
-    destruct (wa_in_row d col row text clear align Hf Hrow Hcol Hal) as (G & X & C).
+    destruct (wa_in_row d col row (utf8 text) clear align Hf Hrow Hcol Hal) as (G & X & C).
     split; [exact G|]. split; [eapply in_row_ext_rows; [left; reflexivity|exact X]|].
     intros r c Hrr Hcc Hn. apply C; try assumption. intros ->. apply Hn. left; reflexivity.
   - (* line *)
     apply andb_true_iff in Hg as [Hrow Hal]. apply row_in_spec in Hrow. rewrite Hal in Hs. injection Hs as <-.
-    destruct (wa_in_row d 0 row text clear align Hf Hrow ltac:(lia) Hal) as (G & X & C).
+    destruct (wa_in_row d 0 row (utf8 text) clear align Hf Hrow ltac:(lia) Hal) as (G & X & C).
     split; [exact G|]. split; [eapply in_row_ext_rows; [left; reflexivity|exact X]|].
     intros r c Hrr Hcc Hn. apply C; try assumption. intros ->. apply Hn. left; reflexivity.
   - (* message *)
     apply andb_true_iff in Hg as [Hg Hbr]. apply andb_true_iff in Hg as [Hta Hba].
     rewrite Hta, Hba in Hs. cbn [andb] in Hs. injection Hs as <-.
-    fold (wa_opt d (d_cols d) 0 top clear top_align).
-    destruct (wa_opt_in_row d 0 top clear top_align Hf ltac:(lia) Hta) as (G1 & X1 & C1).
-    set (d1 := wa_opt d (d_cols d) 0 top clear top_align) in *.
-    destruct bottom as [b|]; cbn [is_none] in *.
+    fold (wa_opt d (d_cols d) 0 (option_map utf8 top) clear top_align).
+    destruct (wa_opt_in_row d 0 (option_map utf8 top) clear top_align Hf ltac:(lia) Hta) as (G1 & X1 & C1).
+    rewrite is_none_map in X1, C1.
+    set (d1 := wa_opt d (d_cols d) 0 (option_map utf8 top) clear top_align) in *.
+    destruct bottom as [b0|]; cbn [is_none option_map] in *; [set (b := utf8 b0)|].
     + rewrite orb_false_l in Hbr. apply Z.leb_le in Hbr. fold (d_rows d) in Hbr.
       assert (Hf1 : fits (d_g d1)) by (rewrite G1; exact Hf).
       assert (Er : d_rows d1 = d_rows d) by (unfold d_rows; rewrite G1; reflexivity).
@@ -301,7 +306,7 @@ Proof.
     + intros r c Hrr Hcc Hn. exfalso. apply Hn. apply In_zseq. exact Hrr.
   - (* progress *)
     apply andb_true_iff in Hg as [Hrow Hst]. apply row_in_spec in Hrow. rewrite Hst in Hs. injection Hs as <-.
-    destruct (progress_in_row d row value maxv width style label Hf Hrow) as (G & X & C).
+    destruct (progress_in_row d row value maxv width style (utf8 label) Hf Hrow) as (G & X & C).
     split; [exact G|]. split; [eapply in_row_ext_rows; [left; reflexivity|exact X]|].
     intros r c Hrr Hcc Hn. apply C; try assumption. intros ->. apply Hn. left; reflexivity.
   - (* display *)
@@ -383,7 +388,7 @@ Proof.
   - destruct (align_ok align); [|reflexivity]. apply textual_write_aligned.
   - destruct (align_ok align); [|reflexivity]. apply textual_write_aligned.
   - destruct (align_ok top_align && align_ok bottom_align); [|reflexivity].
-    set (d1 := match top with Some t => _ | None => d end).
+    set (d1 := match option_map utf8 top with Some t => _ | None => d end).
     assert (G1 : d_g d1 = d_g d) by (subst d1; destruct top; [apply textual_write_aligned|reflexivity]).
     destruct bottom; [|exact G1]. rewrite <- G1. apply textual_write_aligned.
   - reflexivity.
@@ -519,4 +524,23 @@ Lemma top_progress_max_refuted :
 Proof.
   exists 16, 5, (-1). split; [lia|]. split; [lia|]. split; [exists (-80); reflexivity|].
   vm_compute. reflexivity.
+Qed.
+
+(* non-ASCII text: the firmware counts and prints UTF-8 bytes, the host code points, so
+   alignment and truncation differ.  "25(degree)C" right-aligned on 8 columns *)
+Definition g82 : geom := {| g_cols := 8; g_rows := 2; g_i2c := false; g_blpin := None |}.
+Lemma top_non_ascii_refuted :
+  exists g col row text align,
+    fitsb g = true /\ row_in g row = true /\ col_in g col = true /\ align_ok align = true /\ asciib text = false /\
+    match hinit g with
+    | Some h0 =>
+        let op := OWrite col row text true align in
+        snd (hstep h0 op) = HOk /\ dstep (dinit g) op <> None /\
+        cells (dstep' (dinit g) op) <> map (map canon) (h_buf (fst (hstep h0 op)))
+    | None => False
+    end.
+Proof.
+  exists g82, 0, 0, [50; 53; 176; 67], 2.
+  split; [reflexivity|]. split; [reflexivity|]. split; [reflexivity|]. split; [reflexivity|]. split; [reflexivity|].
+  vm_compute. split; [reflexivity|]. split; intros H; discriminate H.
 Qed.
